@@ -410,3 +410,34 @@ Definition parse_decision (c : cls) (magic : option text) (has_clear : bool) : d
       else if eqb_bytes m m_message then DAccept else DValueError
     end
   end.
+
+(* ---------- vocabulary of the statements in Props/C10.v, C11.v ---------- *)
+(* every LF of a text becomes CR LF (what a CRLF transport does to the armored message) *)
+Fixpoint to_crlf (t : text) : text :=
+  match t with [] => [] | c :: r => if c =? 10 then 13 :: 10 :: to_crlf r else c :: to_crlf r end.
+
+
+(* characters that may occur inside a line without being taken for a line ending: [ -~\t] *)
+Definition plain_char (c : Z) : bool := ((32 <=? c) && (c <=? 126)) || (c =? 9).
+
+(* ": " somewhere in the text *)
+Fixpoint has_sep (v : text) : bool :=
+  match v with
+  | a :: r => match r with b :: _ => ((a =? 58) && (b =? 32)) || has_sep r | [] => false end
+  | [] => false
+  end.
+
+(* armor header pairs that read back as written: non-empty printable key and value, no ": " in the value *)
+Definition wf_header (kv : text * text) : bool :=
+  negb (is_nil (fst kv)) && negb (is_nil (snd kv)) && forallb plain_char (fst kv) && forallb plain_char (snd kv)
+  && negb (has_sep (snd kv)).
+Definition wf_headers (h : list (text * text)) : Prop := forallb wf_header h = true /\ NoDup (map fst h).
+
+Definition signed_magic : text := Eval vm_compute in s2z "SIGNED MESSAGE".
+Definition wf_magic (k : text) : bool := negb (is_nil k) && forallb magic_char k && negb (eqb_bytes k signed_magic).
+
+(* the lines of an armor block (without line endings) and a text made of lines with a given line ending *)
+Definition armor_lines (k : text) (h : list (text * text)) (p : bytes) : list text :=
+  (begin_pfx ++ k ++ dash5) :: map hdr_line h ++ [] :: wrap (b64_enc p) ++ [61 :: crc_text p; end_pfx ++ k ++ dash5].
+Definition with_eol (eol : text) (ls : list text) : text := concat (map (fun l => (l ++ eol) ++ [10]) ls).
+Definition headers_opt (h : list (text * text)) : option (list (text * text)) := if is_nil h then None else Some h.
